@@ -1,6 +1,5 @@
-import LPVerif.Driver.All
-/-! `lake env lean --run Driver.lean` : first line `model <name>`, then one op per line. -/
-open LPVerif
+/-! Shared stdin/stdout loop of the line-protocol drivers. -/
+namespace LPVerif.Driver
 
 def words (line : String) : List String :=
   (line.trimAscii.toString.splitOn " ").filter (· ≠ "")
@@ -12,11 +11,10 @@ partial def loop {σ} (h : IO.FS.Stream) (out : IO.FS.Stream) (step : σ → Lis
   for o in outs do out.putStrLn o
   loop h out step s'
 
-def main : IO Unit := do
+def runDriver {σ} (step : σ → List String → σ × List String) (init : σ) : IO Unit := do
   let stdin ← IO.getStdin
   let stdout ← IO.getStdout
-  let first ← stdin.getLine
-  match words first with
-  | ["model", "prof"] => loop stdin stdout Driver.Prof.step {}
-  | _ => stdout.putStrLn "bad-model"
+  loop stdin stdout step init
   stdout.flush
+
+end LPVerif.Driver
